@@ -92,15 +92,14 @@ func (rm *RpcMultiplexer) CallUnaryMethod(
 	statsHandlers []stats.Handler,
 ) (*goatorepo.Body, error) {
 
-	if err := rm.readErrorIfDone(); err != nil {
-		return nil, err
-	}
-
 	streamId := atomic.AddUint64(&rm.streamCounter, 1)
 
 	respChan := make(chan *goatorepo.Rpc, 1)
 
-	h := rm.registerHandler(streamId, respChan)
+	h, err := rm.registerHandler(streamId, respChan)
+	if err != nil {
+		return nil, err
+	}
 	defer func() {
 		h.abandon()
 		rm.unregisterHandler(streamId)
@@ -112,7 +111,7 @@ func (rm *RpcMultiplexer) CallUnaryMethod(
 		Body:   body,
 	}
 
-	err := rm.rw.Write(ctx, &rpc)
+	err = rm.rw.Write(ctx, &rpc)
 	if err != nil {
 		log.Error().Err(err).Msg("CallUnaryMethod: conn.Write")
 		return nil, err
@@ -156,14 +155,13 @@ func (rm *RpcMultiplexer) NewStreamReadWriter(
 	ctx context.Context,
 ) (uint64, types.RpcReadWriter, func(), error) {
 
-	if err := rm.readErrorIfDone(); err != nil {
-		return 0, nil, nil, err
-	}
-
 	streamId := atomic.AddUint64(&rm.streamCounter, 1)
 
 	respChan := make(chan *goatorepo.Rpc, 1)
-	h := rm.registerHandler(streamId, respChan)
+	h, err := rm.registerHandler(streamId, respChan)
+	if err != nil {
+		return 0, nil, nil, err
+	}
 
 	teardown := func() {
 		h.abandon()
@@ -228,13 +226,21 @@ func (rm *RpcMultiplexer) handleResponse(rpc *goatorepo.Rpc) {
 	}
 }
 
-func (rm *RpcMultiplexer) registerHandler(id uint64, c chan *goatorepo.Rpc) *respHandler {
+// registerHandler registers a call, unless reading from the connection has
+// already failed: the failure check and the registration happen under one lock
+// acquisition, so a call can never register after closeError has closed (and
+// forgotten) the registered calls.
+func (rm *RpcMultiplexer) registerHandler(id uint64, c chan *goatorepo.Rpc) (*respHandler, error) {
 	rm.mutex.Lock()
 	defer rm.mutex.Unlock()
 
+	if rm.rErr != nil {
+		return nil, rm.rErr
+	}
+
 	h := &respHandler{ch: c, abandoned: make(chan struct{})}
 	rm.handlers[id] = h
-	return h
+	return h, nil
 }
 
 func (rm *RpcMultiplexer) unregisterHandler(id uint64) {
